@@ -422,7 +422,7 @@ def isolated(fn, args=(), timeout=120.0):
 def run_timeout() -> float:
     """Wall-clock allowance of one run (a hang is killed by the parent and reported as a harness error, exit 2)."""
     default = "900" if os.environ.get("VERIF_TIER_EFFECTIVE") == "thorough" else "150"
-    return float(os.environ.get("VERIF_RUN_TIMEOUT_S", default))
+    return float(os.environ.get("VERIF_RUN_TIMEOUT_S", default)) * float(os.environ.get("VERIF_RUN_TIMEOUT_SCALE", "1"))
 
 
 def run_once(machine, plan, prop, keep_trace=False, timeout=None):
@@ -597,7 +597,29 @@ def run_batch(machine, prop, tier, verif_seed, budget_s, jobs, max_runs=None, ch
             if not submit():
                 break
         stop = False
-        while pending:
+        final = False
+        timed_out = []
+        while pending or (timed_out and not final):
+            if not pending:
+                # Runs killed by the wall-clock allowance while sixteen others (and whatever else the machine was
+                # doing) competed for the processors are executed once more, alone and with four times the allowance.
+                # A run is deterministic: a genuine hang comes back and stays a harness error (exit 2); a run that
+                # finishes is judged by the oracles like any other.
+                final = True
+                os.environ["VERIF_RUN_TIMEOUT_SCALE"] = "4"
+                try:
+                    for idx, seed, payload in timed_out:
+                        t1 = time.monotonic()
+                        res1 = _worker_chunk(machine, prop, tier, verif_seed, [idx])
+                        merged.setdefault("notes", []).append(
+                            f"run {idx} seed {seed}: {payload} under load; re-executed alone: "
+                            f"{'finished' if res1[0][2] == 'ok' else 'failed again'} after {time.monotonic() - t1:.0f}s")
+                        done_f = cf.Future()
+                        done_f.set_result(res1)
+                        pending.add(done_f)
+                finally:
+                    os.environ.pop("VERIF_RUN_TIMEOUT_SCALE", None)
+                timed_out = []
             done, _ = cf.wait(pending, timeout=5.0, return_when=cf.FIRST_COMPLETED)
             for fut in done:
                 pending.discard(fut)
@@ -608,7 +630,10 @@ def run_batch(machine, prop, tier, verif_seed, budget_s, jobs, max_runs=None, ch
                     continue
                 for idx, seed, status, payload in res:
                     if status == "harness":
-                        merged["harness_errors"].append(f"run {idx} seed {seed}: {payload}")
+                        if "run timed out" in payload and not final:
+                            timed_out.append((idx, seed, payload))
+                        else:
+                            merged["harness_errors"].append(f"run {idx} seed {seed}: {payload}")
                         continue
                     merged["runs"] += 1
                     for plan_or_sample, r in payload:
